@@ -24,6 +24,8 @@ QUERIES = [
     ("X.shuffle('a')", "shuffle"),
     ("X.shuffle('a', max_branch=2)", "shuffle-staged"),
     ("(X[X.c > 0].shuffle('a', max_branch=2) + 1)", "shuffle-staged-chain"),
+    ("X.shuffle('a', npartitions=7, max_branch=2)", "shuffle-staged-more"),
+    ("X.shuffle('a', npartitions=2, max_branch=2)", "shuffle-staged-fewer"),
     ("X.merge(R, on='a', broadcast=True)", "broadcast-join"),
     ("X.merge(R, on='a', how='left', broadcast=True)[['c', 'e']]", "broadcast-join-left"),
     ("X.fillna(0).abs().rename(columns={'a': 'x'})", "chain"),
@@ -55,7 +57,13 @@ def partition_lists(k, tier):
         triples = [[0, 1, 2], [2, 1, 0], [0, 0, k - 1], [k - 1, 1, k - 1]]
         if k >= 4:
             triples.append([3, 2, 1])
-    return singles + pairs + triples + [list(range(k))] + ([list(reversed(range(k)))] if k > 3 else [])
+    out = singles + pairs + triples + [list(range(k))] + ([list(reversed(range(k)))] if k > 3 else [])
+    seen, res = set(), []
+    for P in out:
+        if all(0 <= x < k for x in P) and tuple(P) not in seen:
+            seen.add(tuple(P))
+            res.append(P)
+    return res
 
 
 def _cfgs(tier):
@@ -69,7 +77,13 @@ def _cfgs(tier):
             if tier == "quick" and sname in ("pandas3", "graph") and tag not in ("source", "elemwise", "shuffle-staged", "broadcast-join"):
                 continue
             k = src.npart if src.cuts is None else len(src.cuts) - 1
+            if "npartitions=7" in text:
+                k = 7
+            if "npartitions=2" in text:
+                k = 2
             sels = [("partitions", P) for P in partition_lists(k, tier)]
+            if k == 7:
+                sels += [("partitions", P) for P in ([2, 4, 6], [5, 6, 1, 3], [6, 5, 4, 3, 2], [1, 3, 4, 6, 0])]
             sels += [("delayed", None)]
             rows = src.nrows
             for n in ((0, 1, 3, rows + 1) if tier == "quick" else range(0, rows + 2)):
